@@ -585,7 +585,7 @@ def run_system(case):
     b = r.randn(n)
     cc = spec['coef']
     if spec['kind'] == 'linparam':
-        A1 = r.randn(n, n) * .3
+        A1 = c14.linparam_A1(spec, A, r)
         jac = lambda U, kappa=0.: A + kappa * A1
     elif spec['kind'] == 'mixed3':
         Mx = r.randn(n, n)
